@@ -2,14 +2,15 @@
 SPECIFICATION FSpec
 CONSTANTS
   WccSplitCeil = TRUE
-  NWS = {1, 2, 3, 4}
-  SHAPES = {1, 2, 3, 4, 5}
+  NWS = {1, 2, 3}
+  SHAPES = {1, 2, 3, 4, 5, 6, 7}
   PATS = {1}
   AAZERO = TRUE
   MAXLEN = 0
-  NDPATS = {0, 1, 2}
+  NDPATS = {0, 2}
 INVARIANT TbFileInverse
 INVARIANT TbFileInverseAA
+INVARIANT TbFileInverseConvI
 INVARIANT HrFileInverse
 INVARIANT NdegenLayout
 CHECK_DEADLOCK FALSE
